@@ -281,6 +281,29 @@ def rule_magnitude(ctx: Ctx) -> None:
         ctx.tri("2-magnitude", f, f.node, numeric, False, f"{conv} produces a number", "", f"{conv} has no float()/int() conversion this rule recognises", key=f"numeric {conv}")
 
 
+def rule_nested_takes_the_maximum(ctx: Ctx) -> None:
+    """What a NestedPipeFunc asks for is the maximum over its children: _maybe_max_resources hands back the single child's resources,
+    None, or what combine_max returns - not a child's own Resources filled up from the maximum (`child.with_defaults(maximum)` lets
+    the child's smaller memory / time / gpus win)."""
+    P = ctx.prog
+    mm = P.functions.get("pipefunc._pipefunc._maybe_max_resources")
+    if mm is None:
+        ctx.add("3-covers", "pipefunc._pipefunc", "", None, "UNDECIDED: _maybe_max_resources not found", key="nested-maximum")
+        return
+    d = Defs(mm)
+    bad, n = [], 0
+    for r in [r for r in walk_no_nested(mm.node) if isinstance(r, ast.Return) and r.value is not None]:
+        v = d.resolve(r.value)
+        n += 1
+        for c in [c for c in ast.walk(v) if isinstance(c, ast.Call) and isinstance(c.func, ast.Attribute) and c.func.attr in ("with_defaults", "update")]:
+            recv = norm(c.func.value)
+            if "combine_max(" not in recv:
+                bad.append((r, c))
+    ctx.add("3-covers", mm, bad[0][0] if bad else mm.node, not bad, f"_maybe_max_resources returns the maximum as combine_max computed it ({n} returns)" if not bad else
+            f"`{norm(bad[0][1])[:70]}`: the result is a child's own Resources completed from the maximum - with_defaults / update let the receiver's values win, so that child's smaller memory / time / gpus replace the maximum over all children",
+            key="nested-maximum")
+
+
 # ---------------------------------------------------------------------------- rule 3
 def rule_covers(ctx: Ctx) -> None:  # noqa: C901
     fn = ctx.prog.func(f"{MOD}.Resources.combine_max")
@@ -394,6 +417,20 @@ def rule_rest(ctx: Ctx) -> None:  # noqa: C901, PLR0915
         ctx.tri("4-slurm", slurm, slurm.node, ok, not ok and not ssc.dynamic(), f"`{f}` is read when building the options", f"to_slurm_options never reads `{f}`: a set `{f}` is not mentioned",
                 f"fields are read by computed name and `{f}` is not named in the tables the function uses", key=f"emit {f}")
     ctx.floor("4-slurm", n, 8)
+    # each quantity is emitted whenever IT is set: the statement that appends the option of field F is controlled by tests of F only
+    # (an `elif` hung onto the test of another field emits F only when that other field is NOT set)
+    from ..flow import guard_facts
+
+    cfg_s = ctx.cfg(slurm)
+    d_s = Defs(ast.Module(body=[], type_ignores=[]))
+    for nd in cfg_s.nodes(lambda s_: isinstance(s_, ast.Expr) and isinstance(s_.value, ast.Call) and isinstance(s_.value.func, ast.Attribute) and s_.value.func.attr in ("append", "extend", "add")):
+        emitted = sorted({x.attr for x in ast.walk(cfg_s.stmt[nd]) if isinstance(x, ast.Attribute) and isinstance(x.value, ast.Name) and x.value.id == "self" and x.attr in fields and x.attr != "extra_args"})
+        if len(emitted) != 1:
+            continue
+        f_ = emitted[0]
+        foreign = sorted({x.attr for t_, _pol in guard_facts(cfg_s, d_s, nd) for x in ast.walk(ast.parse(t_, mode="eval")) if isinstance(x, ast.Attribute) and isinstance(x.value, ast.Name) and x.value.id == "self" and x.attr in fields} - {f_})
+        ctx.add("4-slurm", slurm, cfg_s.stmt[nd], not foreign, f"`{f_}` is emitted whenever it is set" if not foreign else
+                f"the option of `{f_}` is only emitted depending on {['self.' + x for x in foreign]} (e.g. an `elif` chained to another field's test): with both set, `{f_}` is not mentioned", key=f"emit-independent {f_}")
     # a quantity, once collected, cannot be displaced by a user-supplied extra argument: when the options are gathered in a mapping
     # keyed by flag name, merging `extra_args` OVER it replaces the entry of a quantity whose flag the user also names
     quantity_maps = {t.id for a in ast.walk(slurm.node) if isinstance(a, (ast.Assign, ast.AnnAssign)) and isinstance(a.value, (ast.Dict, ast.DictComp))
@@ -565,6 +602,7 @@ def check(ctx: Ctx) -> None:
     rule_pure(ctx)
     rule_magnitude(ctx)
     rule_covers(ctx)
+    ctx.run(rule_nested_takes_the_maximum)
     rule_rest(ctx)
 
 
